@@ -396,7 +396,11 @@ def main():
     only = None
     prop = None
     jobs = min(16, os.cpu_count() or 1)
+    inline = False
     args = sys.argv[3:]
+    if "--inline" in args:
+        args.remove("--inline")
+        inline = True
     while args:
         if args[0] == "--only-ids":
             only = set(int(x) for x in args[1].split(","))
@@ -416,9 +420,13 @@ def main():
     err_prefix = res_path + ".stderr"
     for old in glob.glob(err_prefix + ".*"):
         os.remove(old)
-    ctx = multiprocessing.get_context("fork")
-    with ctx.Pool(processes=jobs, initializer=_worker_init, initargs=(err_prefix,)) as pool:
-        results["results"] = pool.map(_worker_run, todo, chunksize=1)
+    if inline:
+        _worker_init(err_prefix)
+        results["results"] = [_worker_run(sc) for sc in todo]
+    else:
+        ctx = multiprocessing.get_context("fork")
+        with ctx.Pool(processes=jobs, initializer=_worker_init, initargs=(err_prefix,)) as pool:
+            results["results"] = pool.map(_worker_run, todo, chunksize=1)
     if only is None and prop in (None, "C19"):
         for w in doc.get("wrappers", []):
             results["wrappers"].append(run_wrapper(base, w))
